@@ -232,6 +232,32 @@ func runAssembler(c reqCase) ([]string, error) {
 			return labels, fmt.Errorf("after request %x (reply %x) a following valid request %x was answered with %x, want %x: leftovers disturbed it", []byte(c.Frame), out, follow, out2, want)
 		}
 	}
+	if !panicked && c.Handler != "panic" && c.Class != "not-modbus" && len(c.Frame) >= 8 {
+		// a master with a constant transaction id asks the neighbouring unit the same thing next: the same frame with another unit id,
+		// on the same connection. Its reply must be addressed to it (and otherwise be what this class of request gets).
+		twin := c
+		twin.Frame = append([]byte(nil), c.Frame...)
+		twin.Frame[6] ^= 1
+		twin.Cut, twin.PauseMs = 0, 0
+		asmT := &server.ModbusTCPAssembler{Handler: handlerFor(c)}
+		var outA, outB []byte
+		var pT interface{}
+		func() {
+			defer func() { pT = recover() }()
+			outA, _ = asmT.ReceiveRead(context.Background(), append([]byte(nil), c.Frame...), len(c.Frame))
+			asmT.Handler = handlerFor(twin)
+			outB, _ = asmT.ReceiveRead(context.Background(), append([]byte(nil), twin.Frame...), len(twin.Frame))
+		}()
+		if pT != nil {
+			return labels, fmt.Errorf("assembler panicked on request %x followed by the same request for unit %d: %v", []byte(c.Frame), twin.Frame[6], pT)
+		}
+		if !bytes.Equal(outA, out) && c.Cut == 0 {
+			return labels, fmt.Errorf("request %x answered with %x and, on another assembler, with %x", []byte(c.Frame), out, outA)
+		}
+		if _, err := checkReply(twin, outB, false); err != nil {
+			return labels, fmt.Errorf("request %x followed on the same connection by the same request for unit %d (same transaction id): %v", []byte(c.Frame), twin.Frame[6], err)
+		}
+	}
 	if !panicked && c.Handler != "panic" && c.Class != "not-modbus" {
 		// pipelined: the same frame followed by two valid requests, all in ONE read. Every reply must still be a
 		// well-formed ADU addressed to its own request, in order.
